@@ -62,9 +62,14 @@ func main() {
 		os.Exit(2)
 	}
 	os.Stat("/verif-marker-end")
+	// the verdict goes to stdout AND into the exit status: under `strace -f -e inject=write:...:when=N` the
+	// N-th write of ANOTHER thread - this very line - can be hit by the injected error as well
+	line, code := "RESULT ok"+res, 0
 	if err != nil {
-		fmt.Println("RESULT err" + res + " " + err.Error())
-	} else {
-		fmt.Println("RESULT ok" + res)
+		line, code = "RESULT err"+res+" "+err.Error(), 10
 	}
+	if _, werr := fmt.Println(line); werr != nil {
+		fmt.Fprintln(os.Stderr, line)
+	}
+	os.Exit(code)
 }
